@@ -189,10 +189,35 @@ def run(ctx):
               for _ in range(k)]
         kw = gen.rand_settings(rng, 2, 2, with_mld=False)
         kw.pop("psi", None)
+        if not nd and rng.random() < 0.25:
+            # short series first, then long ones whose bumps are far apart (wide warps): nothing derived from an early
+            # pair (a default window, a buffer size) may survive into later pairs
+            def bump_(n_):
+                a_ = [0.0] * n_
+                p_ = rng.randrange(n_)
+                for q_ in range(p_, min(n_, p_ + 3)):
+                    a_[q_] = 3.0
+                return np.array(a_)
+            ss = [np.array(gen.series(rng, rng.randint(2, 4))) for _ in range(rng.randint(1, 2))] + \
+                 [bump_(rng.randint(18, 34)) for _ in range(rng.randint(2, 3))]
+            k = len(ss)
+            kw.pop("window", None)
+            kw.pop("max_step", None)
+            ctx.count("matrix_short_then_long_collections")
         for use_c in (False, True):
             try:
                 f = dtw_ndim.distance_matrix if nd else dtw.distance_matrix
                 m = np.asarray(f(ss, use_c=use_c, **kw))
+                # symmetry against the single-pair routine with the arguments the other way round
+                fd_ = dtw_ndim.distance if nd else dtw.distance
+                for _p in range(2):
+                    i_, j_ = rng.randrange(k), rng.randrange(k)
+                    if i_ != j_:
+                        rev_ = float(fd_(ss[max(i_, j_)], ss[min(i_, j_)], use_c=use_c, **kw))
+                        ctx.count("law:matrix_entry_equals_reversed_pair")
+                        if not dtwmon.engines_agree(float(m[i_, j_]), rev_, ctx):
+                            ctx.violation("law-violated:matrix-entry-vs-reversed-pair", use_c=use_c, i=i_, j=j_, entry=float(m[i_, j_]),
+                                          reversed_pair=rev_, series=[x.tolist() for x in ss], settings=dict(dtwmon.settings_key(kw)))
                 ctx.count("law:matrix_symmetric")
                 if not (np.array_equal(m, m.T) and np.all(np.diag(m) == 0) and np.all(m >= 0)):
                     ctx.violation("law-violated:matrix-symmetric", use_c=use_c, matrix=m.tolist(),
